@@ -1,22 +1,21 @@
 #!/bin/bash
 # tools/eval_seeded.sh <seeded dir> <Cxx> [Cyy...]
-# 1) confirm the mutant in a scratch worktree (tests still pass, demo passes without / fails with)
-# 2) run the registered quick checks of the given properties on /repo with the patch applied, then undo.
+# In a PRIVATE scratch worktree of /repo HEAD (/repo itself is not touched):
+# 1) confirm the change (demo passes without / fails with it, the 340 stable tests still pass)
+# 2) run the quick checks of the given properties against that worktree (PYTHONPATH override, no evidence written).
 d="$1"; shift
 wt=/tmp/evalwt_$$
 git -C /repo worktree add -q $wt HEAD || exit 9
+trap "git -C /repo worktree remove --force $wt" EXIT
 cd $wt
 PYTHONPATH=$wt/src /venv/bin/python $d/demo.py >/dev/null 2>&1; echo "demo without patch: exit=$? (want 0)"
-if ! git apply $d/patch.diff 2>/dev/null && ! git apply -C1 $d/patch.diff; then echo "PATCH DOES NOT APPLY"; git -C /repo worktree remove --force $wt; exit 9; fi
+if ! git apply $d/patch.diff 2>/dev/null && ! git apply -C1 $d/patch.diff; then echo "PATCH DOES NOT APPLY"; exit 9; fi
 PYTHONPATH=$wt/src /verif/tools/baseline_check.py $wt 2>&1 | grep -v WARNING
 PYTHONPATH=$wt/src /venv/bin/python $d/demo.py >/dev/null 2>&1; echo "demo with patch: exit=$? (want 1)"
 cd /verif
-git -C /repo worktree remove --force $wt
-git -C /repo apply $d/patch.diff 2>/dev/null || git -C /repo apply -C1 $d/patch.diff || exit 9
 for prop in "$@"; do
-  /verif/check "$prop" --tier quick --no-evidence > /tmp/eval_out_$$ 2>&1; rc=$?
+  PYTHONPATH=$wt/src /verif/check "$prop" --tier quick --no-evidence > /tmp/eval_out_$$ 2>&1; rc=$?
   grep -E "VIOLATION|UNDECIDED|CHECKER-CRASH|tier=" /tmp/eval_out_$$ | cut -c1-300 | head -8
   echo "check $prop exit=$rc"
 done
 rm -f /tmp/eval_out_$$
-git -C /repo checkout -- .
